@@ -211,6 +211,26 @@ class World:
                       "BlackScholes hedge": lambda: Hedger(BlackScholes(d), BlackScholes(d).inputs()).compute_hedge(d)}
             if not has_vol:
                 del things["BlackScholes hedge"]
+            # certainty equivalents found by the DEFAULT search of HedgeLoss.cash (criteria without a closed form): a user
+            # criterion and the built-in OCE, on one sample and on a constant sample (the shortcut of the search)
+            from pfhedge.nn import HedgeLoss
+            from pfhedge.nn.modules.loss import OCE
+
+            class Exp2Loss(HedgeLoss):
+                def forward(self, input, target=0.0):
+                    return torch.exp2(-(input - target)).mean(0)
+            # (a sample with non-finite entries has no certainty equivalent - half-precision overflow of the toy model - and is not
+            #  a dtype matter: the sample itself is handed over then, it has the right dtype or the P&L clause above reports it;
+            #  OCE carries a parameter of its own and is cast like any module)
+            def searched(crit):
+                pl_ = Hedger(SumNet(), feats).compute_pl(d)
+                return crit.cash(pl_) if bool(pl_.isfinite().all()) else pl_
+            # (not in half precision: the search's precision is below the resolution of the dtype there, it runs to its iteration
+            #  limit and stops with an error - C19's business, and minutes of run time)
+            if not half:
+                things["cash (default search, user criterion)"] = lambda: searched(Exp2Loss())
+                things["cash (default search, OCE)"] = lambda: searched(OCE(lambda z: 1 - torch.exp(-z)).to(dt))
+            things["cash (default search, constant sample)"] = lambda: Exp2Loss().cash(torch.full_like(Hedger(SumNet(), feats).compute_pl(d), 0.5))
             from pfhedge.features import Barrier, ModuleOutput, get_feature
             from pfhedge.instruments import EuropeanForwardStartOption, VarianceSwap
             from pfhedge.nn import Naked
@@ -247,7 +267,9 @@ class World:
             # instrument produces - the declared one, or the global default in force now when none is declared
             want = prim.dtype if prim.dtype is not None else torch.get_default_dtype()
             for name, fn in (("compute_loss(n_times=2)", lambda: Hedger(SumNet(), ["moneyness"]).compute_loss(d, n_paths=2, n_times=2)),
-                             ("price(n_times=3)", lambda: Hedger(SumNet(), ["moneyness"]).price(d, n_paths=2, n_times=3))):
+                             ("price(n_times=3)", lambda: Hedger(SumNet(), ["moneyness"]).price(d, n_paths=2, n_times=3)),
+                             ) + (() if want in (torch.float16, torch.bfloat16) else
+                                  (("price (criterion with the default cash search)", lambda: Hedger(SumNet(), ["moneyness"], criterion=Exp2Loss()).price(d, n_paths=3)),)):
                 try:
                     t = fn()
                 except (RuntimeError, NotImplementedError, ValueError) as e:
@@ -432,6 +454,46 @@ def repository_test_traces(ctx: Ctx) -> None:
         ctx.sample({"repository_test_stream": {k: by_k[1][0][k] for k in ("test", "cls", "init")}, "events": by_k[1][0]["events"][:3]})
 
 
+def produced_in_declared(ctx: Ctx) -> None:
+    """"Subsequent simulations are PRODUCED in the declared dtype": a float64 instrument under the float32 default - declared at
+    construction, by double(), or by to(float64) after a first float32 simulation - simulates series that carry double
+    precision (beyond the initial column, the values of a random path are not all representable in float32; a scheme run in
+    single precision and cast afterwards yields only such values)."""
+    import pfhedge.instruments as inst
+    from pfhedge.instruments import BasePrimary
+    saved = torch.get_default_dtype()
+    torch.set_default_dtype(torch.float32)
+    try:
+        for cname in sorted(dir(inst)):
+            cls = getattr(inst, cname)
+            if not (isinstance(cls, type) and issubclass(cls, BasePrimary) and cls is not BasePrimary):
+                continue
+            for route in ("dtype=float64", "double()", "simulate(); to(float64)"):
+                try:
+                    kw = {"sigma_fn": (lambda t, s: 0.2 + 0.1 * s)} if cname == "LocalVolatilityStock" else {}
+                    p = cls(dtype=torch.float64, **kw) if route == "dtype=float64" else cls(**kw)
+                    if route == "double()":
+                        p.double()
+                    elif route.startswith("simulate"):
+                        p.simulate(n_paths=2, time_horizon=3 * p.dt)
+                        p.to(torch.float64)
+                    torch.manual_seed(ctx.seed + 1)
+                    p.simulate(n_paths=4, time_horizon=6 * p.dt)
+                except Exception as e:
+                    ctx.skip(f"produced-in: {cname} could not be simulated on the generic arguments ({type(e).__name__})")
+                    continue
+                for bname, b in p.named_buffers():
+                    ctx.count(n=1)
+                    tail = b[:, 1:]
+                    if b.dtype != torch.float64:
+                        ctx.violation("dtype:produced-in:dtype", f"{cname} ({route}): buffer {bname} is {b.dtype}", {})
+                    elif tail.numel() >= 8 and bool((tail != tail[:, :1]).any()) and bool((tail.float().double() == tail).all()):
+                        ctx.violation("dtype:produced-in", f"{cname} ({route}) declares float64 under the float32 default, but every simulated value of {bname} is representable in float32: "
+                                      "the series was produced in single precision and cast afterwards", {"class": cname, "route": route, "buffer": bname, "values": tail[0, :4].tolist()})
+    finally:
+        torch.set_default_dtype(saved)
+
+
 def check(ctx: Ctx) -> None:
     warnings.filterwarnings("ignore")
     saved = torch.get_default_dtype()
@@ -470,6 +532,7 @@ def check(ctx: Ctx) -> None:
                               {"init": t["init"], "prefix": [[e["op"], e["p"], e["d"], e["how"], e["via"]] for e in t["events"][:reached]], "line": ev})
         ctx.sample({"recorded_trace": {"init": traces[0]["init"], "events": traces[0]["events"][:3]}})
         repository_test_traces(ctx)
+        produced_in_declared(ctx)
         # binding demonstration on behaviours generated by the specification itself (independent of /repo):
         # corrupt one logged field / drop one event -> rejected at exactly that line; untouched ones accepted
         good = [{"init": r["init"], "events": json.loads(json.dumps(r["hist"]))} for r in sim.records[:400] if len(r["hist"]) >= 7][:10]
